@@ -1,11 +1,56 @@
 /-
   C27 — Directory uploads never write outside the destination.
+
+  "Extracting an uploaded directory archive never creates, modifies, links or deletes anything
+   outside the destination directory, whatever the archive contains."
+
+  Model: MM/Model/C27.lean — a filesystem with directories, regular files (inodes, so hard links
+  alias), symbolic links and the kernel's physical path resolution, and `untar` = UntarDirectory
+  statement by statement.  `untar true` is the code with checkNoSymlinkComponents (what /repo
+  contains once fixes/C27-untar-symlink-components.patch is applied); `untar false` is the code as
+  it was, kept to show that the lexical checks alone do not give the property.
+
+  Quantification: every archive (any list of dir / regular / symlink / hard-link / other entries
+  with arbitrary names and link targets), every fuel (number of symbolic links the kernel is
+  willing to follow), every destination and every initial filesystem that satisfies `Inv`:
+    wf    — a tree: the parent of every entry is a directory;
+    phys  — the destination exists and neither it nor an ancestor is a symbolic link
+            ("outside" is meant relative to the real location of the destination);
+    sep   — no inode is hard-linked both below the destination and elsewhere;
+    fresh — the inode counter is ahead of every inode in use.
+  Symbolic links of any shape may already exist anywhere, also below the destination.
 -/
 import MM.Lemmas.C27
 
 namespace MM.C27
 
-/-- Sandbox used by the examples: /out/secret (inode 1, content 7) next to the destination /w/d. -/
+/-- Nothing outside the destination changes: every path that is not strictly below `dest` (this
+    includes `dest` itself, which stays a directory) resolves to the same entry as before, and
+    every file that exists outside keeps its content — for ALL archives. -/
+theorem C27_statement (fu : Nat) (dest : Path) (fs : FS) (es : List Entry)
+    (hI : Inv dest fs) (hdd : NoDD dest) :
+    (∀ q, ¬ Under dest q → (untar true fu dest fs es).1.lookup q = fs.lookup q) ∧
+    (∀ q i, ¬ Under dest q → fs.lookup q = some (.file i) →
+        (untar true fu dest fs es).1.content i = fs.content i) ∧
+    (untar true fu dest fs es).1.lookup dest = some .dir := by
+  have hS := safe_untar (fu := fu) es hI hdd
+  refine ⟨hS.look, ?_, inv_lookup_dest (hS.inv hI)⟩
+  intro q i hq hl
+  apply Classical.byContradiction
+  intro hne
+  rcases hS.data i hne with ⟨q', hq', hl'⟩ | hn
+  · exact hq (hI.sep q' q i hl' hl hq')
+  · have := hI.fresh q i hl
+    omega
+
+/-- The invariants are kept, so the statement also holds for any sequence of extractions. -/
+theorem C27_inv_preserved (fu : Nat) (dest : Path) (fs : FS) (es : List Entry)
+    (hI : Inv dest fs) (hdd : NoDD dest) : Inv dest (untar true fu dest fs es).1 :=
+  (safe_untar (fu := fu) es hI hdd).inv hI
+
+/-! ### the code as it was -/
+
+/-- Sandbox used by the examples: /1/2 is a file (inode 1, content 7) next to the destination /3/4. -/
 def exFS : FS :=
   { ents := [([1], .dir), ([1, 2], .file 1), ([3], .dir), ([3, 4], .dir)], data := [(1, 7)], next := 2 }
 def exDest : Path := [3, 4]
@@ -15,12 +60,29 @@ def rel (c : List Name) : Target := ⟨false, c⟩
 def chain : List Entry :=
   [⟨rel [5], .dir⟩, ⟨rel [5, 6], .sym (rel [dd])⟩, ⟨rel [5, 6, 7], .sym (rel [dd])⟩, ⟨rel [5, 6, 7, 8], .reg 9⟩]
 
-/-- The code as it was (lexical checks only) creates /w/x — outside /w/d. -/
+/-- With the lexical checks only (`untar false`) the chain creates /3/8 — outside /3/4: the
+    statement fails for the unrepaired code. -/
 theorem C27_unchecked_refuted :
-    ((untar false 40 exDest exFS chain).1.lookup [3, 8]) ≠ exFS.lookup [3, 8] := by decide
+    ¬ (∀ q, ¬ Under exDest q → (untar false 40 exDest exFS chain).1.lookup q = exFS.lookup q) := by
+  intro h
+  have := h [3, 8] (fun hu => by have := underB_iff.mpr hu; revert this; decide)
+  revert this
+  decide
 
-/-- The repaired code refuses the third entry and leaves /w/x absent. -/
+/-! ### non-vacuity -/
+
+example : Inv exDest exFS := invB_sound (by decide)
+example : NoDD exDest := by intro n hn; simp [exDest] at hn; rcases hn with rfl | rfl <;> decide
+
+/-- The repaired code refuses the third entry of the chain; /3/8 stays absent, the directory a/
+    and the first link were created below the destination. -/
 example : (untar true 40 exDest exFS chain).2 = false ∧
-    ((untar true 40 exDest exFS chain).1.lookup [3, 8]) = none := by decide
+    (untar true 40 exDest exFS chain).1.lookup [3, 8] = none ∧
+    (untar true 40 exDest exFS chain).1.lookup [3, 4, 5, 6] = some (.sym (rel [dd])) := by decide
+
+/-- An ordinary archive is extracted completely. -/
+example : (untar true 40 exDest exFS
+    [⟨rel [5], .dir⟩, ⟨rel [5, 6], .reg 9⟩, ⟨rel [7], .sym (rel [5, 6])⟩, ⟨rel [8], .hard (rel [5, 6])⟩]).2 = true := by
+  decide
 
 end MM.C27
